@@ -12,7 +12,7 @@ Lines == JsonDeserialize(IOEnv.LINES)          \* sequence of [id, ins]
 VARIABLES lid, pres, line
 vars == <<lid, pres, line>>
 Ins == Lines[lid].ins
-Dims == {"syn","rc","kc","sp","nb","isg","dsg","ord","dout","pct","st0","dsp"}
+Dims == {"syn","rc","kc","sp","nb","isg","dsg","ord","dout","pct","st0","dsp","dz"}
 \* number of presentation dimensions that differ from the canonical presentation ("%" belongs to AT&T)
 Changed(p) == Cardinality({d \in Dims : p[d] # Pres0[d] /\ ~(d = "pct" /\ p.syn = "att")})
 OpHasReg(o) == \/ o.k = "reg" \/ (o.k = "mem" /\ (o.seg # "" \/ \E j \in 1..Len(o.terms) : o.terms[j].t = "reg"))
@@ -36,6 +36,8 @@ DispOut   == Step("dout", TRUE) /\ pres.syn = "intel" /\ pres.dsp = "one"   \* [
 Percent   == Step("pct", TRUE) /\ pres.syn = "intel"    \* eax <-> %eax
 StBare    == Step("st0", "bare")                        \* st(0) <-> st
 DispSplit == \E v \in {"pm", "mp"} : Step("dsp", v) /\ pres.syn = "intel" /\ ~pres.dout    \* [eax+4] <-> [eax+8-4] <-> [eax-4+8]
+\* a zero displacement written explicitly: the base on which DispOut / TermOrder / ToAtt then act ([eax+0] <-> 0[eax] <-> [0+eax] <-> 0(%eax))
+ZeroDisp  == Step("dz", TRUE)
 ToAtt     == /\ Changed(pres) < MaxActs /\ pres.syn = "intel" /\ pres.dsp = "one" /\ AttOK(Ins)
              /\ pres' = [pres EXCEPT !.syn = "att", !.pct = TRUE, !.ord = "bid", !.dout = FALSE, !.kc = "upper"]
              /\ Changed(pres') <= MaxActs
@@ -46,7 +48,8 @@ Next == \/ (On("RegCase") /\ RegCase)     \/ (On("KwCase") /\ KwCase)     \/ (On
         \/ (On("NumBase") /\ NumBase)     \/ (On("ImmSign") /\ ImmSign)   \/ (On("DispSign") /\ DispSign)
         \/ (On("TermOrder") /\ TermOrder) \/ (On("DispOut") /\ DispOut)   \/ (On("Percent") /\ Percent)
         \/ (On("StBare") /\ StBare)       \/ (On("ToAtt") /\ ToAtt)   \/ (On("DispSplit") /\ DispSplit)
-AllActs == {"RegCase","KwCase","Spacing","NumBase","ImmSign","DispSign","TermOrder","DispOut","Percent","StBare","ToAtt","DispSplit"}
+        \/ (On("ZeroDisp") /\ ZeroDisp)
+AllActs == {"RegCase","KwCase","Spacing","NumBase","ImmSign","DispSign","TermOrder","DispOut","Percent","StBare","ToAtt","DispSplit","ZeroDisp"}
 Spec == Init /\ [][Next]_vars
 \* every reachable spelling denotes the instruction of its canonical line
 DenoteOK == /\ line = Layout(Ins, pres)
